@@ -102,8 +102,9 @@ class _P:
         return _ch(c)
 
     def parse_class(self):
-        if self.peek() == '^':
-            raise RegexError('negated class not supported')
+        negated = self.peek() == '^'
+        if negated:
+            self.next()
         parts = []
         first = True
         while True:
@@ -125,7 +126,11 @@ class _P:
                 parts.append(z3.Range(c, hi))
             else:
                 parts.append(_ch(c))
-        return parts[0] if len(parts) == 1 else z3.Union(*parts)
+        r = parts[0] if len(parts) == 1 else z3.Union(*parts)
+        if negated:
+            # any ONE character outside the class (Python: newline included)
+            r = z3.Intersect(z3.AllChar(z3.ReSort(z3.StringSort())), z3.Complement(r))
+        return r
 
 
 def _concat(rs):
